@@ -14,7 +14,9 @@ Inductive op :=
 | OPushItem (d k j : nat) (owned : bool)       (* push the j-th item of slot k into slot d *)
 | OCloneOnto (k j : nat) (u : uval)            (* clone_onto(item j of slot k, target u) *)
 | OReserveItems (k : nat) (us : list uval)
-| OReserveRegions (k : nat) (ks : list nat).
+| OReserveRegions (k : nat) (ks : list nat)
+| OHeap (k : nat)                              (* heap_size pairs; the model does not predict them here *)
+| OSerde (k : nat).                            (* slot k := deserialize(serialize(slot k)) *)
 
 Inductive obs :=
 | BIdx (i : uval) | BVal (v : uval) | BPanic | BIll | BNone.
@@ -88,6 +90,8 @@ Section Machine.
         end
     | OReserveItems k us => ([BNone], Some sl)
     | OReserveRegions k ks => ([BNone], Some sl)
+    | OHeap k => ([BNone], Some sl)
+    | OSerde k => ([BNone], Some sl)
     end.
 
   Fixpoint run (sl : list slot) (ops : list op) : list (list obs) :=
